@@ -3,6 +3,7 @@
 # Verifies a seeded change in a scratch worktree of /repo (never touches /repo itself): applies, builds, runs the demo with
 # and without the change, optionally the repository's suite, then runs the named checks (default: meta.property) against it.
 set -u
+here=$(cd "$(dirname "$0")/.." && pwd)
 d=$(realpath "$1"); shift
 suite=0; if [ "${1:-}" = "--suite" ]; then suite=1; shift; fi
 export GOFLAGS=-mod=mod GOPROXY=off GOSUMDB=off GOTOOLCHAIN=local
@@ -28,7 +29,7 @@ rm -f "$dest"
 if [ $suite = 1 ]; then
   go test -vet=off -count=1 -timeout 25m ./... > $wt.suite.log 2>&1; echo "suite with change rc=$? $(grep -c '^ok' $wt.suite.log) ok / $(grep -c '^FAIL\|^---' $wt.suite.log) fail lines"
 fi
-cd /verif
+cd "$here"
 for p in $ids; do
   out=$(VERIF_REPO=$wt ./check $p ${TIER:-quick} 2>&1); rc=$?
   echo "check $p rc=$rc :: $(echo "$out" | grep -E 'VIOLATION|INCONCLUSIVE|OK property' | head -3 | cut -c1-200 | tr '\n' '|')"
